@@ -71,3 +71,21 @@ package alert
 //@   props C08
 //@   requires tx != nil && event != nil
 //@   guardcall Delete#1: arg0 == event.State.ID
+
+// ---------------------------------------------------------------- service.go load on open (C08)
+// On open every persisted topic bucket is read back under ITS OWN name: the scratch buffer that
+// carries the bucket name is empty when the callback for a topic starts and empty again when it
+// ends, and what is looked up is exactly the topic's name.
+//@ func (*Service).loadConvertTopicBucket
+//@   trusted
+//@   modifies nothing
+//@ func =(*github.com/influxdata/kapacitor/alert.Topics).RestoreTopicNoCopy
+//@   trusted
+//@   modifies nothing
+//@ func (*Service).loadSavedTopicStates$1
+//@   props C08
+//@   opt strings=seq
+//@   requires s != nil && s.topics != nil && gf(&buf, content, string) == ""
+//@   ensures result == nil ==> gf(&buf, content, string) == ""
+//@   guardcall loadConvertTopicBucket#1: str(arg1) == topic
+//@   guardcall RestoreTopicNoCopy#1: arg0 == topic && arg1 == callresult(loadConvertTopicBucket, 0)
